@@ -1,23 +1,30 @@
-//! C18 - inbound rate limiting and ban lists.
+//! C18 - inbound rate limiting and ban lists; the receive task in front of the handler.
 //!
-//! `verif-harness limiter --part lim|fil --seed S --cases N --out DIR [--only I]`
+//! `verif-harness limiter --part lim|fil|inb [--focus cNN] --seed S --cases N --out DIR [--only I]`
 //!
 //! part lim: the real `Limiter<u64>` through its explicit-time entry point; exact comparison with
 //!           coq/Model/Limiter.v (verdict incl. waiting time, all TATs) + monitors written from
 //!           the property text (window bound, reference token bucket, prune transparency);
 //! part fil: the real `Filter` (reads the clock itself) + the process-global PERMIT_BAN_LIST,
 //!           driven serially in real time on time-robust histories; decisions, ban/permit lists
-//!           and the filter's caches are compared with the model after every call.
+//!           and the filter's caches are compared with the model after every call;
+//! part inb: the real `RecvHandler::handle_inbound` in front of a real `Handler` (hook
+//!           `VirtualHandler`): datagrams with a full source socket address (IPv4, IPv6, IPv4-mapped
+//!           IPv6, IPv6 with flowinfo / scope id), both ports of an IP, every packet kind, source ids
+//!           incl. the local one, bodies of 0..40 bytes, explicit content of expected_responses.
+//!           Observed per datagram: delivered / unrecognized / dropped and the source address that
+//!           reached the handler; compared with `recv_inbound` of Model/Limiter.v.  Monitors for
+//!           C18 (bans, quotas), C13 (exemptions are per socket address), C05 (well-formed packets
+//!           reach the handler whatever source id and body length), C03/C12/C14/C02 (the handler
+//!           sees the datagram's source address) and C04 (flowinfo/scope normalisation).
+//!           `--focus cNN`: only failures of that property are reported (others are counted).
 use crate::common::*;
 use discv5::enr::{CombinedKey, NodeId};
-use discv5::verif::filter::{
-    permit_ban_reset, permit_ban_snapshot, DatagramKind, Fate, FilterConfig, FilterFacade, LimiterFacade, PermitBanList, RateLimiterBuilder,
-    RecvFacade, Verdict,
-};
-use discv5::verif::handler::VirtualHandler;
+use discv5::verif::filter::{permit_ban_reset, permit_ban_snapshot, FilterConfig, FilterFacade, LimiterFacade, PermitBanList, RateLimiterBuilder, Verdict};
+use discv5::verif::handler::{wire_encode, HandlerOut, PacketKind, VirtualHandler, WirePacket};
 use discv5::{ConfigBuilder, Discv5, Enr, ListenConfig, NodeAddress};
 use std::collections::{BTreeMap, BTreeSet};
-use std::net::{IpAddr, Ipv4Addr, SocketAddr};
+use std::net::{IpAddr, Ipv4Addr, Ipv6Addr, SocketAddr, SocketAddrV6};
 use std::time::{Duration, Instant};
 
 pub const HEADER: &str = "From Coq Require Import List NArith.\nImport ListNotations.\nFrom Discv5V Require Import Model.Limiter Run.Common Run.LimiterRun.\nOpen Scope N_scope.";
@@ -156,7 +163,8 @@ fn enc_lim_state(e: &mut Enc, st: &(u64, u64, Vec<(u64, u64)>)) {
 
 pub struct CaseResult {
     pub coq: String,
-    pub failures: Vec<(String, String, usize)>,
+    /// (property, what, detail, step)
+    pub failures: Vec<(String, String, String, usize)>,
     pub nontrivial: bool,
     pub canon: u64,
     pub steps: usize,
@@ -322,6 +330,7 @@ fn run_lim(id: u64, g: &LimCase) -> CaseResult {
         if ok { 1 } else { 0 },
         steps.join(";\n  ")
     );
+    let failures = failures.into_iter().map(|(s, d, i)| ("C18".to_string(), s, d, i)).collect();
     CaseResult { coq, failures, nontrivial: accepted_any && refused_any, canon: h, steps: steps.len(), hist, ambiguous: 0 }
 }
 
@@ -343,13 +352,35 @@ impl Regime {
     }
 }
 
+/// A source socket address: IP code (`ip_of`), port, flowinfo and scope id (IPv6 only).
+#[derive(Clone, Copy, Debug, PartialEq, Eq)]
+pub struct Src {
+    pub ip: u8,
+    pub port: u16,
+    pub flow: u32,
+    pub scope: u32,
+}
+
+/// The packet in a datagram: undecodable bytes of the given length, or a well-formed packet
+/// (message / handshake from node code n, `LOCAL` = the local node's own id).
+#[derive(Clone, Copy, Debug, PartialEq, Eq)]
+pub enum PK {
+    Garbage(u16),
+    WhoAreYou,
+    Message(u8),
+    Handshake(u8),
+}
+
+/// node code of the local node id
+pub const LOCAL: u8 = 200;
+
 #[derive(Clone, Debug)]
 pub enum FEv {
     Initial(u8),
     Final(u8, u8),
-    /// one datagram through RecvHandler::handle_inbound: exempt source?, ip, 0 = garbage /
-    /// 255 = WHOAREYOU / n = message from node n
-    Inbound(bool, u8, u8),
+    /// one datagram through RecvHandler::handle_inbound and on to the handler: source socket
+    /// address, content of expected_responses, packet kind, body length (message / handshake)
+    Recv { src: Src, expected: Vec<Src>, pk: PK, body: u16 },
     Prune,
     /// the handler's unban_nodes_check (runs when a handler starts)
     UnbanCheck,
@@ -379,7 +410,31 @@ fn gen_regime(rng: &mut Rng, big: bool) -> Regime {
     }
 }
 
-fn gen_fil(rng: &mut Rng, thorough: bool, inb: bool) -> FilCase {
+/// The first datagram of a receive-path case (a fresh filter: nothing is banned, every bucket is
+/// full): the corners of the datagram space in turn, so that every run holds each of them.
+fn opening(rng: &mut Rng, idx: u64) -> FEv {
+    let i = *rng.pick(&[1u8, 2, 3, 4]);
+    let node = *rng.pick(&[1u8, 2, 3, 4, 5, 6]);
+    let v4 = Src { ip: i, port: 9000, flow: 0, scope: 0 };
+    let (src, expected, pk, body): (Src, Vec<Src>, PK, u16) = match idx % 8 {
+        // the largest legal datagram
+        0 => (v4, vec![], PK::Message(node), 1280 - 71),
+        // the local node's own id as source id
+        1 => (v4, vec![], PK::Message(LOCAL), 24),
+        6 => (v4, vec![Src { port: 9001, ..v4 }], PK::Handshake(LOCAL), 15),
+        // empty body
+        2 => (v4, vec![], PK::Handshake(node), 0),
+        // IPv4-mapped source while something is awaited from its IPv4 twin
+        3 => (Src { ip: 32 + i, ..v4 }, vec![v4], PK::Message(node), 17),
+        7 => (Src { ip: 32 + i, scope: 2, ..v4 }, vec![], PK::Garbage(100), 0),
+        // link-local peer: scope id set, no flowinfo; and the reverse
+        4 => (Src { ip: 48 + i, scope: *rng.pick(&[1u32, 2, 7]), ..v4 }, vec![], PK::Message(node), 40),
+        _ => (Src { ip: 16 + i, flow: 0x12345, ..v4 }, vec![], PK::Message(node), 16),
+    };
+    FEv::Recv { src, expected, pk, body }
+}
+
+fn gen_fil(rng: &mut Rng, thorough: bool, inb: bool, idx: u64) -> FilCase {
     let enabled = !rng.chance(1, 8);
     let rate = if rng.chance(1, 10) {
         None
@@ -410,10 +465,10 @@ fn gen_fil(rng: &mut Rng, thorough: bool, inb: bool) -> FilCase {
                 _ => Some(500_000),
             }
         };
+        // receive-path histories: bans and permits also for the IPv6 forms of the addresses
+        let ip = if inb && rng.chance(1, 3) { ip + 16 * rng.range(1, 3) as u8 } else { ip };
         let ev = match rng.weighted(&[34, 34, 5, 5, 5, 6, 6, 3]) {
-            0 if inb => FEv::Inbound(rng.chance(1, 8), ip, *rng.pick(&[0u8, 255, node, node, node, node])),
-            1 if inb => FEv::Inbound(rng.chance(1, 8), ip, node),
-            2 if inb => FEv::Inbound(false, ip, 255),
+            0 | 1 | 2 if inb => gen_recv(rng),
             0 => FEv::Initial(ip),
             1 => FEv::Final(ip, node),
             2 => FEv::Prune,
@@ -425,19 +480,142 @@ fn gen_fil(rng: &mut Rng, thorough: bool, inb: bool) -> FilCase {
         };
         events.push(ev);
     }
+    if inb {
+        let first = opening(rng, idx);
+        events.insert(0, first);
+    }
     FilCase { enabled, rate, ban_ns, max_nodes_per_ip, max_bans_per_ip, events }
 }
 
-fn ip_of(i: u8) -> IpAddr {
-    IpAddr::V4(Ipv4Addr::new(10, 0, 0, i))
+/// One datagram event of the receive-path histories.
+fn gen_recv(rng: &mut Rng) -> FEv {
+    let i = *rng.pick(&[1u8, 1, 1, 2, 2, 3, 4]);
+    // IPv4, global IPv6, IPv4-mapped IPv6, link-local IPv6
+    let fam = rng.weighted(&[10, 3, 4, 3]) as u8;
+    let port: u16 = if rng.chance(3, 4) { 9000 } else { 9001 };
+    let (flow, scope): (u32, u32) = if fam == 0 {
+        (0, 0)
+    } else {
+        match rng.weighted(&[8, 5, 4, 3]) {
+            0 => (0, 0),
+            1 => (0, *rng.pick(&[1u32, 2, 7])),
+            2 => (*rng.pick(&[1u32, 0x12345]), 0),
+            _ => (*rng.pick(&[1u32, 0x12345]), *rng.pick(&[1u32, 2, 7])),
+        }
+    };
+    let src = Src { ip: fam * 16 + i, port, flow, scope };
+    let norm = Src { flow: 0, scope: 0, ..src };
+    // expected_responses: the source itself (solicited), and entries that must exempt nothing here
+    let mut expected = vec![];
+    if rng.chance(1, 8) {
+        expected.push(norm);
+    }
+    if rng.chance(1, 4) {
+        // another port of the same IP
+        expected.push(Src { port: port ^ 1, ..norm });
+    }
+    if (fam == 0 || fam == 2) && rng.chance(1, 4) {
+        // the same port of the IPv4 / IPv4-mapped twin of the address
+        expected.push(Src { ip: (2 - fam) * 16 + i, ..norm });
+    }
+    if (flow, scope) != (0, 0) && rng.chance(1, 3) {
+        // the address as it came from the socket: the lookup is made with the normalised one
+        expected.push(src);
+    }
+    if rng.chance(1, 8) {
+        // the same port of another IP
+        expected.push(Src { ip: fam * 16 + (i % 4) + 1, ..norm });
+    }
+    let node = if rng.chance(1, 10) { LOCAL } else { *rng.pick(&[1u8, 1, 2, 2, 3, 4, 5, 6]) };
+    let pk = match rng.weighted(&[10, 5, 2, 3]) {
+        0 => PK::Message(node),
+        1 => PK::Handshake(node),
+        2 => PK::WhoAreYou,
+        _ => PK::Garbage(*rng.pick(&[0u16, 20, 62, 63, 100, 700, 1280, 1400])),
+    };
+    let body: u16 = match rng.below(8) {
+        0 => 0,
+        1 => 1,
+        2 => 15,
+        3 => 16,
+        4 => 17,
+        5 => 24,
+        6 => 40,
+        _ => rng.range(0, 40) as u16,
+    };
+    // now and then a message packet that fills the datagram up to the legal maximum of 1280 bytes
+    // (16 IV + 23 static header + 32 auth-data + body) or one byte less
+    let body = match pk {
+        PK::Message(_) if rng.chance(1, 10) => 1280 - 71 - rng.below(2) as u16,
+        _ => body,
+    };
+    FEv::Recv { src, expected, pk, body }
 }
-fn ip_num(ip: &IpAddr) -> u64 {
-    match ip {
-        IpAddr::V4(a) => u32::from_be_bytes(a.octets()) as u64,
-        IpAddr::V6(_) => u64::MAX,
+
+/// IP code -> address: low 4 bits i, high bits the family: 0 = 10.0.0.i, 1 = 2001:db8::i,
+/// 2 = ::ffff:10.0.0.i (IPv4-mapped), 3 = fe80::i (link-local).
+fn ip_of(c: u8) -> IpAddr {
+    let i = c % 16;
+    match c / 16 {
+        0 => IpAddr::V4(Ipv4Addr::new(10, 0, 0, i)),
+        1 => IpAddr::V6(Ipv6Addr::new(0x2001, 0xdb8, 0, 0, 0, 0, 0, i as u16)),
+        2 => IpAddr::V6(Ipv4Addr::new(10, 0, 0, i).to_ipv6_mapped()),
+        _ => IpAddr::V6(Ipv6Addr::new(0xfe80, 0, 0, 0, 0, 0, 0, i as u16)),
     }
 }
+/// IP addresses as numbers: IPv4 below 2^32, the IPv6 addresses used here above (an IPv4-mapped
+/// address and its IPv4 twin are different numbers).
+fn ip_num(ip: &IpAddr) -> u128 {
+    match ip {
+        IpAddr::V4(a) => u32::from_be_bytes(a.octets()) as u128,
+        IpAddr::V6(a) => {
+            let n = u128::from_be_bytes(a.octets());
+            assert!(n >= 1 << 32);
+            n
+        }
+    }
+}
+fn sock(s: &Src) -> SocketAddr {
+    match ip_of(s.ip) {
+        IpAddr::V4(a) => SocketAddr::new(IpAddr::V4(a), s.port),
+        IpAddr::V6(a) => SocketAddr::V6(SocketAddrV6::new(a, s.port, s.flow, s.scope)),
+    }
+}
+/// The normalisation of source addresses documented in RecvHandler::handle_inbound: flowinfo and
+/// scope id of an IPv6 source are zeroed (when either is set); nothing else is touched.
+fn doc_normalise(a: SocketAddr) -> SocketAddr {
+    match a {
+        SocketAddr::V4(_) => a,
+        SocketAddr::V6(v6) => SocketAddr::V6(SocketAddrV6::new(*v6.ip(), v6.port(), 0, 0)),
+    }
+}
+fn enc_sock(e: &mut Enc, a: &SocketAddr) {
+    let (flow, scope) = match a {
+        SocketAddr::V4(_) => (0, 0),
+        SocketAddr::V6(v6) => (v6.flowinfo(), v6.scope_id()),
+    };
+    nn(e, ip_num(&a.ip()));
+    e.n(a.port() as u64).n(flow as u64).n(scope as u64);
+}
+fn nn(e: &mut Enc, x: u128) {
+    e.0.push(x.to_string());
+}
+/// the key of the local node of the receive-path histories (fixed: the local id is part of a case)
+fn local_key() -> CombinedKey {
+    let mut b = [0x42u8; 32];
+    CombinedKey::secp256k1_from_bytes(&mut b).expect("key")
+}
+fn local_enr(key: &CombinedKey) -> Enr {
+    Enr::builder().ip4(Ipv4Addr::new(127, 0, 0, 1)).udp4(9009).build(key).unwrap()
+}
+fn local_id() -> NodeId {
+    static ID: std::sync::OnceLock<[u8; 32]> = std::sync::OnceLock::new();
+    NodeId::new(ID.get_or_init(|| local_enr(&local_key()).node_id().raw()))
+}
 fn node_of(i: u8) -> NodeId {
+    if i == LOCAL {
+        return local_id();
+    }
     let mut b = [0u8; 32];
     b[0] = 0xAB;
     b[31] = i;
@@ -452,18 +630,49 @@ fn coq_on(x: Option<u64>) -> String {
     coq_opt(x.map(|v| v.to_string()))
 }
 
+fn coq_src(s: &Src) -> String {
+    format!("(SA {} {} {} {})", ip_num(&ip_of(s.ip)), s.port, s.flow, s.scope)
+}
+
+/// an event of a receive-path case
+fn coq_iev(e: &FEv) -> String {
+    match e {
+        FEv::Recv { .. } => coq_fev(e),
+        _ => format!("IFil ({})", coq_fev(e)),
+    }
+}
+
+/// an event for the replay file: the Coq term plus what the term abstracts from
+fn replay_fev(e: &FEv) -> String {
+    match e {
+        FEv::Recv { src, expected, pk, body } => format!(
+            "{}  (* source {}, expected_responses {:?}, {:?}, body of {} bytes *)",
+            coq_fev(e),
+            sock(src),
+            expected.iter().map(sock).collect::<Vec<_>>(),
+            pk,
+            match pk {
+                PK::Message(_) | PK::Handshake(_) => *body,
+                _ => 0,
+            }
+        ),
+        _ => coq_fev(e),
+    }
+}
+
 fn coq_fev(e: &FEv) -> String {
     match e {
         FEv::Initial(ip) => format!("FInitial {}", ip_num(&ip_of(*ip))),
         FEv::Final(ip, n) => format!("FFinal {} {}", ip_num(&ip_of(*ip)), node_num(&node_of(*n))),
-        FEv::Inbound(ex, ip, k) => format!(
-            "FInbound {} {} {}",
-            coq_bool(*ex),
-            ip_num(&ip_of(*ip)),
-            match k {
-                0 => "None".to_string(),
-                255 => "(Some None)".to_string(),
-                n => format!("(Some (Some {}))", node_num(&node_of(*n))),
+        FEv::Recv { src, expected, pk, .. } => format!(
+            "IRecv [{}] {} {}",
+            expected.iter().map(coq_src).collect::<Vec<_>>().join("; "),
+            coq_src(src),
+            match pk {
+                PK::Garbage(_) => "None".to_string(),
+                PK::WhoAreYou => "(Some PWhoAreYou)".to_string(),
+                PK::Message(n) => format!("(Some (PMessage {}))", node_num(&node_of(*n))),
+                PK::Handshake(n) => format!("(Some (PHandshake {}))", node_num(&node_of(*n))),
             }
         ),
         FEv::Prune => "FPruneLimiter".into(),
@@ -490,21 +699,22 @@ fn build_rate(r: &(Regime, Option<Regime>, Option<Regime>)) -> discv5::RateLimit
     b.build().expect("rate limiter")
 }
 
-fn enc_bans<K: Clone>(e: &mut Enc, m: &std::collections::HashMap<K, Option<Instant>>, num: impl Fn(&K) -> u64) {
-    let mut v: Vec<(u64, u64)> = m.iter().map(|(k, t)| (num(k), t.is_some() as u64)).collect();
+fn enc_bans<K: Clone>(e: &mut Enc, m: &std::collections::HashMap<K, Option<Instant>>, num: impl Fn(&K) -> u128) {
+    let mut v: Vec<(u128, u64)> = m.iter().map(|(k, t)| (num(k), t.is_some() as u64)).collect();
     v.sort();
     e.n(v.len() as u64);
     for (k, f) in v {
-        e.n(k).n(f);
+        nn(e, k);
+        e.n(f);
     }
 }
 
 fn enc_pbl(e: &mut Enc, p: &PermitBanList) {
-    let mut v: Vec<u64> = p.permit_ips.iter().map(ip_num).collect();
+    let mut v: Vec<u128> = p.permit_ips.iter().map(ip_num).collect();
     v.sort();
     e.n(v.len() as u64);
     for x in v {
-        e.n(x);
+        nn(e, x);
     }
     enc_bans(e, &p.ban_ips, ip_num);
     let mut v: Vec<u64> = p.permit_nodes.iter().map(node_num).collect();
@@ -513,7 +723,7 @@ fn enc_pbl(e: &mut Enc, p: &PermitBanList) {
     for x in v {
         e.n(x);
     }
-    enc_bans(e, &p.ban_nodes, node_num);
+    enc_bans(e, &p.ban_nodes, |n| node_num(n) as u128);
 }
 
 fn enc_filter(e: &mut Enc, f: &FilterFacade) {
@@ -522,14 +732,16 @@ fn enc_filter(e: &mut Enc, f: &FilterFacade) {
     for (ip, ids) in &d.known_addrs {
         let mut v: Vec<u64> = ids.iter().map(node_num).collect();
         v.sort();
-        e.n(ip_num(ip)).n(v.len() as u64);
+        nn(e, ip_num(ip));
+        e.n(v.len() as u64);
         for x in v {
             e.n(x);
         }
     }
     e.n(d.banned_nodes.len() as u64);
     for (ip, c) in &d.banned_nodes {
-        e.n(ip_num(ip)).n(*c as u64);
+        nn(e, ip_num(ip));
+        e.n(*c as u64);
     }
     match d.init_time {
         None => {
@@ -552,11 +764,11 @@ fn enc_filter(e: &mut Enc, f: &FilterFacade) {
             }
             match &d.ip {
                 Some(l) => {
-                    let mut v: Vec<u64> = l.iter().map(|(k, _)| ip_num(k)).collect();
+                    let mut v: Vec<u128> = l.iter().map(|(k, _)| ip_num(k)).collect();
                     v.sort();
                     e.n(1).n(v.len() as u64);
                     for x in v {
-                        e.n(x);
+                        nn(e, x);
                     }
                 }
                 None => {
@@ -570,11 +782,11 @@ fn enc_filter(e: &mut Enc, f: &FilterFacade) {
 /// quota bookkeeping of the monitor for the time-robust regimes
 struct Quota {
     regime: Option<Regime>,
-    used: BTreeMap<u64, u64>,
+    used: BTreeMap<u128, u64>,
 }
 impl Quota {
     /// would one more datagram for `key` stay within the quota? (counts it if so)
-    fn take(&mut self, key: u64) -> bool {
+    fn take(&mut self, key: u128) -> bool {
         match self.regime {
             None | Some(Regime::Open(..)) => true,
             Some(Regime::Counting(_, n)) => {
@@ -588,30 +800,128 @@ impl Quota {
             }
         }
     }
+    /// the same when the bookkeeping may have lost track of the implementation (after a monitor
+    /// failure earlier in the case): None = no statement
+    fn take_opt(&mut self, key: u128, lost: bool) -> Option<bool> {
+        match self.regime {
+            None | Some(Regime::Open(..)) => Some(true),
+            Some(Regime::Counting(..)) if lost => None,
+            Some(Regime::Counting(..)) => Some(self.take(key)),
+        }
+    }
+}
+
+/// monitor failures of one case: (property, what, detail, step); one entry per property and text
+#[derive(Default)]
+struct Fails {
+    seen: BTreeSet<String>,
+    list: Vec<(String, String, String, usize)>,
+}
+impl Fails {
+    fn add(&mut self, props: &[&str], what: &str, detail: String, step: usize) {
+        for p in props {
+            if self.seen.insert(format!("{}:{}", p, what)) {
+                self.list.push((p.to_string(), what.to_string(), detail.clone(), step));
+            }
+        }
+    }
+}
+
+/// What the reference of the receive-path monitor expects of one filter stage.
+#[derive(Clone, Copy, PartialEq, Debug)]
+enum Exp {
+    Pass,
+    /// the stage must drop the datagram; the text of the failure if it does not
+    Drop(&'static str),
+    Unknown,
+}
+
+/// The datagram of a receive-path event, built with the crate's own `Packet::encode`.
+fn build_datagram(pk: &PK, body: u16, step: usize, local: &NodeId, pid: discv5::ProtocolIdentity) -> Vec<u8> {
+    let t = step as u8;
+    let wire = |kind: PacketKind, message: Vec<u8>| {
+        wire_encode(&WirePacket { iv: 0x1000 + step as u128, nonce: [t; 12], kind, message }, pid, local)
+    };
+    match pk {
+        PK::Garbage(n) => (0..*n as usize).map(|j| (j as u8).wrapping_mul(31).wrapping_add(t)).collect(),
+        PK::WhoAreYou => wire(PacketKind::WhoAreYou { id_nonce: [t ^ 0x55; 16], enr_seq: 1 }, vec![]),
+        PK::Message(n) => wire(PacketKind::Message { src_id: node_of(*n) }, vec![0x5a; body as usize]),
+        PK::Handshake(n) => wire(
+            PacketKind::Handshake { src_id: node_of(*n), id_nonce_sig: vec![0x11; 64], ephem_pubkey: vec![0x22; 33], enr_record: None },
+            vec![0xa5; body as usize],
+        ),
+    }
+}
+
+/// One datagram through the real receive task and on to the real handler.  Returns the fate
+/// (0 dropped, 1 unrecognized frame, 3 delivered) and the source address the handler got, where it
+/// shows it: a message packet without a session makes it ask the application for the sender's
+/// record (`HandlerOut::WhoAreYou`, carrying the node address); an unrecognized frame is reported.
+async fn recv_one(vh: &mut VirtualHandler, src: SocketAddr, data: &[u8], reaction_expected: bool) -> (u64, Option<SocketAddr>) {
+    while vh.from_handler.try_recv().is_ok() {}
+    while vh.next_datagram().is_some() {}
+    let n = vh.inject(src, data).await;
+    if n == 0 {
+        return (0, None);
+    }
+    for round in 0..100 {
+        for _ in 0..20 {
+            tokio::task::yield_now().await;
+            match vh.from_handler.try_recv() {
+                Ok(HandlerOut::WhoAreYou(r)) => return (3, Some(r.0.socket_addr)),
+                Ok(HandlerOut::UnrecognizedFrame(f)) => return (1, Some(f.src_address)),
+                _ => {}
+            }
+        }
+        if !reaction_expected && round >= 1 {
+            break;
+        }
+        tokio::time::sleep(Duration::from_millis(1)).await;
+    }
+    (3, None)
 }
 
 fn run_fil(id: u64, g: &FilCase, api: &Discv5, inb: bool, rt: &tokio::runtime::Runtime) -> CaseResult {
     let mut hist = Hist::default();
-    let mut failures: Vec<(String, String, usize)> = vec![];
-    let mut seen = BTreeSet::new();
-    let mut fail = |failures: &mut Vec<(String, String, usize)>, sig: &str, d: String, i: usize| {
-        if seen.insert(sig.to_string()) {
-            failures.push((sig.to_string(), d, i));
-        }
-    };
+    let mut fl = Fails::default();
     permit_ban_reset(PermitBanList::default());
     let base = Instant::now();
     let ns = |t: Instant| t.duration_since(base).as_nanos() as u64;
     let rate = g.rate.as_ref().map(build_rate);
     let init = rate.as_ref().map(|r| ns(r.verif_init_time()));
-    let config = FilterConfig { enabled: g.enabled, rate_limiter: rate, max_nodes_per_ip: g.max_nodes_per_ip, max_bans_per_ip: g.max_bans_per_ip };
-    let local_id = node_of(200);
-    // the filter alone, or the filter inside the receive path (RecvHandler::handle_inbound)
-    let (mut f, mut recv): (Option<FilterFacade>, Option<RecvFacade>) = if inb {
-        (None, Some(rt.block_on(RecvFacade::new(config, g.ban_ns.map(Duration::from_nanos), local_id)).expect("recv handler")))
+    let local = local_id();
+    let pid = discv5::ProtocolIdentity::default();
+    // the filter alone, or the filter inside the receive task (RecvHandler::handle_inbound) in front
+    // of a handler; the handler's own unban_nodes_check runs once when it starts (empty lists)
+    let (mut f, mut recv): (Option<FilterFacade>, Option<VirtualHandler>) = if inb {
+        let mut config = ConfigBuilder::new(ListenConfig::default()).build();
+        config.enable_packet_filter = g.enabled;
+        config.filter_rate_limiter = rate;
+        config.filter_max_nodes_per_ip = g.max_nodes_per_ip;
+        config.filter_max_bans_per_ip = g.max_bans_per_ip;
+        config.ban_duration = g.ban_ns.map(Duration::from_nanos);
+        let vh = rt.block_on(async {
+            let key = local_key();
+            let enr = local_enr(&key);
+            let vh = VirtualHandler::spawn(
+                std::sync::Arc::new(parking_lot::RwLock::new(enr)),
+                std::sync::Arc::new(parking_lot::RwLock::new(key)),
+                config,
+                vec![SocketAddr::new(IpAddr::V4(Ipv4Addr::new(127, 0, 0, 1)), 9009)],
+            )
+            .await
+            .expect("virtual handler");
+            tokio::time::sleep(Duration::from_millis(3)).await;
+            vh
+        });
+        assert_eq!(vh.local_id(), local);
+        (None, Some(vh))
     } else {
+        let config = FilterConfig { enabled: g.enabled, rate_limiter: rate, max_nodes_per_ip: g.max_nodes_per_ip, max_bans_per_ip: g.max_bans_per_ip };
         (Some(FilterFacade::new(config, g.ban_ns.map(Duration::from_nanos))), None)
     };
+    // the monitor's quota bookkeeping has lost track of the implementation (after a failure)
+    let mut lost = false;
     hist.add(if g.enabled { "filter:enabled" } else { "filter:disabled" });
     match &g.rate {
         None => hist.add("rate_limiter:none"),
@@ -642,38 +952,27 @@ fn run_fil(id: u64, g: &FilCase, api: &Discv5, inb: bool, rt: &tokio::runtime::R
         let before = permit_ban_snapshot();
         let lo_i = Instant::now();
         let mut out = Enc::new();
+        let mut fwd: Option<SocketAddr> = None;
         let r = catch(std::panic::AssertUnwindSafe(|| match ev {
             FEv::Initial(ip) => Some(f.as_mut().unwrap().initial_pass(&SocketAddr::new(ip_of(*ip), 9000)) as u64),
             FEv::Final(ip, n) => {
                 Some(f.as_mut().unwrap().final_pass(&NodeAddress { socket_addr: SocketAddr::new(ip_of(*ip), 9000), node_id: node_of(*n) }) as u64)
             }
-            FEv::Inbound(ex, ip, k) => {
-                let src = SocketAddr::new(ip_of(*ip), 9000);
-                let rf = recv.as_mut().unwrap();
-                if *ex {
-                    rf.expected_responses.write().insert(src, 1);
+            FEv::Recv { src, expected, pk, body } => {
+                let vh = recv.as_mut().unwrap();
+                {
+                    let mut m = vh.exemptions.write();
+                    m.clear();
+                    for e in expected {
+                        *m.entry(sock(e)).or_insert(0) += 1;
+                    }
                 }
-                // an answer awaited from ANOTHER port of the same IP address exempts nothing here:
-                // exemptions are per socket address
-                let decoy = SocketAddr::new(ip_of(*ip), 9001);
-                if i % 2 == 0 {
-                    rf.expected_responses.write().insert(decoy, 1);
-                }
-                let kind = match k {
-                    0 => DatagramKind::Garbage,
-                    255 => DatagramKind::WhoAreYou,
-                    n => DatagramKind::Message(node_of(*n)),
-                };
-                let fate = rt.block_on(rf.inbound(src, kind));
-                if *ex {
-                    rf.expected_responses.write().remove(&src);
-                }
-                rf.expected_responses.write().remove(&decoy);
-                Some(match fate {
-                    Fate::Dropped => 0,
-                    Fate::Unrecognized => 1,
-                    Fate::Delivered => 3,
-                })
+                let data = build_datagram(pk, *body, i, &local, pid);
+                let reaction = matches!(pk, PK::Message(_) | PK::Garbage(_));
+                let (fate, seen_src) = rt.block_on(recv_one(vh, sock(src), &data, reaction));
+                vh.exemptions.write().clear();
+                fwd = seen_src;
+                Some(fate)
             }
             FEv::Prune => {
                 f.as_mut().unwrap().prune_limiter();
@@ -736,7 +1035,7 @@ fn run_fil(id: u64, g: &FilCase, api: &Discv5, inb: bool, rt: &tokio::runtime::R
         let decision = match r {
             Ok(d) => d,
             Err(m) => {
-                fail(&mut failures, "panic in the packet filter", m, i);
+                fl.add(&["C18"], "panic in the packet filter", m, i);
                 break;
             }
         };
@@ -745,19 +1044,30 @@ fn run_fil(id: u64, g: &FilCase, api: &Discv5, inb: bool, rt: &tokio::runtime::R
         if let Some(d) = decision {
             out.n(d);
         }
+        if let FEv::Recv { .. } = ev {
+            match &fwd {
+                Some(a) => {
+                    out.n(1);
+                    enc_sock(&mut out, a);
+                }
+                None => {
+                    out.n(0);
+                }
+            }
+        }
         enc_pbl(&mut out, &after);
         if let Some(f) = f.as_ref() {
             enc_filter(&mut out, f);
         }
-        steps.push(format!("({}, {}, {}, {})", coq_fev(ev), lo, hi, out.coq()));
+        steps.push(format!("({}, {}, {}, {})", if inb { coq_iev(ev) } else { coq_fev(ev) }, lo, hi, out.coq()));
         hist.add(match ev {
             FEv::Initial(_) => "op:initial_pass",
             FEv::Final(..) => "op:final_pass",
             FEv::Prune => "op:prune_limiter",
-            FEv::Inbound(true, ..) => "op:handle_inbound (exempt source)",
-            FEv::Inbound(false, _, 0) => "op:handle_inbound (undecodable)",
-            FEv::Inbound(false, _, 255) => "op:handle_inbound (WHOAREYOU)",
-            FEv::Inbound(false, ..) => "op:handle_inbound (message)",
+            FEv::Recv { pk: PK::Garbage(_), .. } => "op:handle_inbound (undecodable)",
+            FEv::Recv { pk: PK::WhoAreYou, .. } => "op:handle_inbound (WHOAREYOU)",
+            FEv::Recv { pk: PK::Message(_), .. } => "op:handle_inbound (message)",
+            FEv::Recv { pk: PK::Handshake(_), .. } => "op:handle_inbound (handshake)",
             FEv::UnbanCheck => "op:unban_nodes_check",
             FEv::PermitIp(..) | FEv::PermitNode(..) => "op:permit/unpermit",
             FEv::BanIp(..) | FEv::BanNode(..) => "op:ban/unban",
@@ -780,17 +1090,17 @@ fn run_fil(id: u64, g: &FilCase, api: &Discv5, inb: bool, rt: &tokio::runtime::R
                     saw_permit = true;
                     hist.add("initial_pass:permit-listed");
                     if !d {
-                        fail(&mut failures, "datagram from a permit-listed IP was dropped at the IP stage", format!("{:?}", ev), i);
+                        fl.add(&["C18"], "datagram from a permit-listed IP was dropped at the IP stage", format!("{:?}", ev), i);
                     }
                 } else if before.ban_ips.contains_key(&ip) {
                     saw_ban_drop = true;
                     hist.add("initial_pass:banned");
                     if d {
-                        fail(&mut failures, "datagram from a banned IP was let through", format!("{:?}", ev), i);
+                        fl.add(&["C18"], "datagram from a banned IP was let through", format!("{:?}", ev), i);
                     }
                 } else if !limited {
                     if !d {
-                        fail(&mut failures, "datagram was refused although no quota applies", format!("{:?}", ev), i);
+                        fl.add(&["C18"], "datagram was refused although no quota applies", format!("{:?}", ev), i);
                     }
                 } else {
                     let ip_ok = q_ip.take(ip_num(&ip));
@@ -798,27 +1108,27 @@ fn run_fil(id: u64, g: &FilCase, api: &Discv5, inb: bool, rt: &tokio::runtime::R
                         saw_limit_drop = true;
                         hist.add("initial_pass:over the per-IP quota");
                         if d {
-                            fail(&mut failures, "more datagrams than the burst were let through for one IP", format!("{:?}", ev), i);
+                            fl.add(&["C18"], "more datagrams than the burst were let through for one IP", format!("{:?}", ev), i);
                         }
                         match after.ban_ips.get(&ip) {
                             Some(t) if within(t) => {}
-                            x => fail(&mut failures, "sender over its per-IP quota is not banned for the configured duration", format!("{:?}: ban entry {:?}, call in [{}, {}] ns", ev, x.map(|t| t.map(ns)), lo, hi), i),
+                            x => fl.add(&["C18"], "sender over its per-IP quota is not banned for the configured duration", format!("{:?}: ban entry {:?}, call in [{}, {}] ns", ev, x.map(|t| t.map(ns)), lo, hi), i),
                         }
                     } else {
                         let tot_ok = q_total.take(0);
                         if tot_ok {
                             hist.add("initial_pass:within every quota");
                             if !d {
-                                fail(&mut failures, "datagram within every applicable quota was refused", format!("{:?}", ev), i);
+                                fl.add(&["C18"], "datagram within every applicable quota was refused", format!("{:?}", ev), i);
                             }
                         } else {
                             saw_limit_drop = true;
                             hist.add("initial_pass:over the total quota");
                             if d {
-                                fail(&mut failures, "more datagrams than the total burst were let through", format!("{:?}", ev), i);
+                                fl.add(&["C18"], "more datagrams than the total burst were let through", format!("{:?}", ev), i);
                             }
                             if after.ban_ips.contains_key(&ip) {
-                                fail(&mut failures, "sender was banned although only the total quota was exceeded", format!("{:?}", ev), i);
+                                fl.add(&["C18"], "sender was banned although only the total quota was exceeded", format!("{:?}", ev), i);
                             }
                         }
                     }
@@ -834,29 +1144,29 @@ fn run_fil(id: u64, g: &FilCase, api: &Discv5, inb: bool, rt: &tokio::runtime::R
                     saw_permit = true;
                     hist.add("final_pass:permit-listed");
                     if !d {
-                        fail(&mut failures, "datagram from a permit-listed node id was dropped at the node stage", format!("{:?}", ev), i);
+                        fl.add(&["C18"], "datagram from a permit-listed node id was dropped at the node stage", format!("{:?}", ev), i);
                     }
                 } else if before.ban_nodes.contains_key(&node) {
                     saw_ban_drop = true;
                     hist.add("final_pass:banned");
                     if d {
-                        fail(&mut failures, "datagram from a banned node id was let through", format!("{:?}", ev), i);
+                        fl.add(&["C18"], "datagram from a banned node id was let through", format!("{:?}", ev), i);
                     }
                 } else if !g.enabled {
                     if !d {
-                        fail(&mut failures, "datagram was refused although the filter is disabled", format!("{:?}", ev), i);
+                        fl.add(&["C18"], "datagram was refused although the filter is disabled", format!("{:?}", ev), i);
                     }
                 } else {
-                    let node_ok = if g.rate.is_some() { q_node.take(node_num(&node)) } else { true };
+                    let node_ok = if g.rate.is_some() { q_node.take(node_num(&node) as u128) } else { true };
                     if !node_ok {
                         saw_limit_drop = true;
                         hist.add("final_pass:over the per-node quota");
                         if d {
-                            fail(&mut failures, "more datagrams than the burst were let through for one node id", format!("{:?}", ev), i);
+                            fl.add(&["C18"], "more datagrams than the burst were let through for one node id", format!("{:?}", ev), i);
                         }
                         match after.ban_nodes.get(&node) {
                             Some(t) if within(t) => {}
-                            x => fail(&mut failures, "sender over its per-node quota is not banned for the configured duration", format!("{:?}: ban entry {:?}", ev, x.map(|t| t.map(ns))), i),
+                            x => fl.add(&["C18"], "sender over its per-node quota is not banned for the configured duration", format!("{:?}: ban entry {:?}", ev, x.map(|t| t.map(ns))), i),
                         }
                         if after.ban_ips.len() > before.ban_ips.len() {
                             hist.add("final_pass:IP banned for too many banned nodes");
@@ -864,13 +1174,13 @@ fn run_fil(id: u64, g: &FilCase, api: &Discv5, inb: bool, rt: &tokio::runtime::R
                     } else if g.max_nodes_per_ip.is_none() {
                         hist.add("final_pass:within every quota");
                         if !d {
-                            fail(&mut failures, "datagram within every applicable quota was refused", format!("{:?}", ev), i);
+                            fl.add(&["C18"], "datagram within every applicable quota was refused", format!("{:?}", ev), i);
                         }
                     } else if !d {
                         // only the nodes-per-IP rule can explain this
                         hist.add("final_pass:nodes-per-IP rule");
                         if !after.ban_ips.contains_key(&ip) {
-                            fail(&mut failures, "datagram within every applicable quota was refused", format!("{:?} (nodes-per-IP rule did not ban the IP either)", ev), i);
+                            fl.add(&["C18"], "datagram within every applicable quota was refused", format!("{:?} (nodes-per-IP rule did not ban the IP either)", ev), i);
                         }
                     } else {
                         hist.add("final_pass:within every quota");
@@ -879,42 +1189,256 @@ fn run_fil(id: u64, g: &FilCase, api: &Discv5, inb: bool, rt: &tokio::runtime::R
                 saw_pass |= d;
                 h = (h ^ (4 + d as u64)).wrapping_mul(1099511628211);
             }
-            FEv::Inbound(ex, ipi, k) => {
-                let ip = ip_of(*ipi);
+            FEv::Recv { src, expected, pk, body } => {
+                let raw = sock(src);
+                let ip = raw.ip();
+                let norm = doc_normalise(raw);
                 let fate = decision.unwrap();
                 let dropped = fate == 0;
-                let node = if *k != 0 && *k != 255 { Some(node_of(*k)) } else { None };
-                if *ex {
+                // solicited: something is awaited from exactly this socket address
+                let exempt = expected.iter().any(|e| sock(e) == norm);
+                // entries for other socket addresses of the same host: another port, the IPv4 /
+                // IPv4-mapped twin, the address with its scope id
+                let twin = |a: &IpAddr, b: &IpAddr| match (a, b) {
+                    (IpAddr::V4(x), IpAddr::V6(y)) | (IpAddr::V6(y), IpAddr::V4(x)) => x.to_ipv6_mapped() == *y,
+                    _ => false,
+                };
+                let related = expected.iter().any(|e| {
+                    let a = sock(e);
+                    a != norm && (a.ip() == ip || twin(&a.ip(), &ip))
+                });
+                let node = match pk {
+                    PK::Message(n) | PK::Handshake(n) => Some(node_of(*n)),
+                    _ => None,
+                };
+                let well_formed = !matches!(pk, PK::Garbage(_));
+                let is_local = matches!(pk, PK::Message(LOCAL) | PK::Handshake(LOCAL));
+                let short_body = node.is_some() && *body < 16;
+                let full_size = matches!(pk, PK::Message(_)) && *body >= 1208;
+                if full_size {
+                    hist.add(&format!("recv:message packet in a datagram of {} bytes", 71 + *body));
+                }
+                hist.add(match src.ip / 16 {
+                    0 => "recv:source:IPv4",
+                    1 => "recv:source:IPv6",
+                    2 => "recv:source:IPv4-mapped IPv6",
+                    _ => "recv:source:IPv6 link-local",
+                });
+                if src.ip / 16 != 0 {
+                    hist.add(match (src.flow != 0, src.scope != 0) {
+                        (false, false) => "recv:source:v6 plain",
+                        (false, true) => "recv:source:v6 scope id only",
+                        (true, false) => "recv:source:v6 flowinfo only",
+                        (true, true) => "recv:source:v6 flowinfo and scope id",
+                    });
+                }
+                if is_local {
+                    hist.add("recv:src-id is the local node id");
+                }
+                if short_body {
+                    hist.add("recv:body shorter than 16 bytes");
+                }
+                if related {
+                    hist.add("recv:something awaited from another socket address of the host");
+                }
+                let detail = format!(
+                    "datagram {} from {} ({:?}, body {} bytes) with expected_responses {:?}: {}, handler saw source {:?}",
+                    i,
+                    raw,
+                    pk,
+                    if node.is_some() { *body } else { 0 },
+                    expected.iter().map(sock).collect::<Vec<_>>(),
+                    match fate {
+                        0 => "dropped",
+                        1 => "unrecognized frame",
+                        _ => "delivered",
+                    },
+                    fwd
+                );
+
+                // ---- the source address that reaches the handler (C03 / C12 / C14 / C02: challenges,
+                // sessions, admission and PONGs are all keyed by / filled with this address; C04: an
+                // answer is matched by comparing it with the address in the peer's record)
+                match fwd {
+                    Some(fw) => {
+                        hist.add("recv:forwarded source observed");
+                        if fw.ip() != raw.ip() || fw.port() != raw.port() {
+                            fl.add(
+                                &["C03", "C12", "C14", "C02"],
+                                "the source address handed to the handler is not the address the datagram came from",
+                                detail.clone(),
+                                i,
+                            );
+                        } else if fw != norm {
+                            fl.add(
+                                &["C04"],
+                                "flowinfo and scope id of an IPv6 source were not both zeroed before the address was handed to the handler (it never equals the address in the peer's record)",
+                                detail.clone(),
+                                i,
+                            );
+                        }
+                    }
+                    None if !dropped && matches!(pk, PK::Message(_) | PK::Garbage(_)) => hist.add("recv:forwarded source NOT observed (no reaction of the handler)"),
+                    None => {}
+                }
+
+                // ---- the fate of the datagram
+                let lists_changed = after.ban_ips.len() != before.ban_ips.len() || after.ban_nodes.len() != before.ban_nodes.len();
+                let mut failed = false;
+                if exempt {
                     saw_permit = true;
                     hist.add("inbound:exempt");
                     if dropped {
-                        fail(&mut failures, "solicited datagram was dropped by the filter", format!("{:?}", ev), i);
-                    }
-                    if after.ban_ips.len() != before.ban_ips.len() || after.ban_nodes.len() != before.ban_nodes.len() {
-                        fail(&mut failures, "solicited datagram changed the ban lists", format!("{:?}", ev), i);
-                    }
-                } else if !before.permit_ips.contains(&ip) && before.ban_ips.contains_key(&ip) {
-                    saw_ban_drop = true;
-                    hist.add("inbound:banned IP");
-                    if !dropped {
-                        fail(&mut failures, "datagram from a banned IP was let through", format!("{:?}", ev), i);
-                    }
-                } else if let Some(n) = node {
-                    if !before.permit_nodes.contains(&n) && before.ban_nodes.contains_key(&n) && !dropped {
-                        fail(&mut failures, "datagram from a banned node id was let through", format!("{:?}", ev), i);
-                    }
-                    if before.permit_ips.contains(&ip) && before.permit_nodes.contains(&n) {
-                        saw_permit = true;
-                        hist.add("inbound:permit-listed IP and node");
-                        if dropped {
-                            fail(&mut failures, "datagram from a permit-listed IP and node id was dropped", format!("{:?}", ev), i);
+                        failed = true;
+                        fl.add(&["C18", "C13"], "solicited datagram was dropped by the filter", detail.clone(), i);
+                        if well_formed {
+                            fl.add(&["C05"], "a well-formed packet from an address an answer is awaited from was not delivered to the handler", detail.clone(), i);
                         }
                     }
-                } else if before.permit_ips.contains(&ip) {
-                    saw_permit = true;
-                    if dropped {
-                        fail(&mut failures, "datagram from a permit-listed IP was dropped at the IP stage", format!("{:?}", ev), i);
+                    if lists_changed {
+                        failed = true;
+                        fl.add(&["C18", "C13"], "solicited datagram changed the ban lists", detail.clone(), i);
                     }
+                } else {
+                    // reference, stage 1: permit list, ban list, per-IP quota, total quota
+                    let mut ip_ban_due = false;
+                    let s1 = if before.permit_ips.contains(&ip) {
+                        Exp::Pass
+                    } else if before.ban_ips.contains_key(&ip) {
+                        Exp::Drop("datagram from a banned IP was let through")
+                    } else if !limited {
+                        Exp::Pass
+                    } else {
+                        match q_ip.take_opt(ip_num(&ip), lost) {
+                            None => Exp::Unknown,
+                            Some(false) => {
+                                ip_ban_due = true;
+                                Exp::Drop("more datagrams than the burst were let through for one IP")
+                            }
+                            Some(true) => match q_total.take_opt(0, lost) {
+                                None => Exp::Unknown,
+                                Some(false) => Exp::Drop("more datagrams than the total burst were let through"),
+                                Some(true) => Exp::Pass,
+                            },
+                        }
+                    };
+                    // stage 2 (packets that carry a source id: message and handshake packets alike):
+                    // permit list, ban list, per-node quota
+                    let mut node_ban_due = false;
+                    let s2 = match (&s1, &node) {
+                        (Exp::Drop(_), _) | (_, None) => Exp::Pass,
+                        (_, Some(n)) => {
+                            if before.permit_nodes.contains(n) {
+                                Exp::Pass
+                            } else if before.ban_nodes.contains_key(n) {
+                                Exp::Drop("datagram from a banned node id was let through")
+                            } else if !g.enabled || g.rate.is_none() {
+                                Exp::Pass
+                            } else if s1 == Exp::Unknown {
+                                Exp::Unknown
+                            } else {
+                                match q_node.take_opt(node_num(n) as u128, lost) {
+                                    None => Exp::Unknown,
+                                    Some(false) => {
+                                        node_ban_due = true;
+                                        Exp::Drop("more datagrams than the burst were let through for one node id")
+                                    }
+                                    Some(true) => Exp::Pass,
+                                }
+                            }
+                        }
+                    };
+                    match (s1, s2) {
+                        (Exp::Drop(text), _) | (_, Exp::Drop(text)) => {
+                            let at_ip_stage = matches!(s1, Exp::Drop(_));
+                            saw_ban_drop |= text.contains("banned");
+                            saw_limit_drop |= !text.contains("banned");
+                            hist.add(&format!("inbound:must be dropped ({})", text.replace(" was let through", "").replace(" were let through", "")));
+                            if !dropped {
+                                failed = true;
+                                fl.add(&["C18"], text, detail.clone(), i);
+                                // nothing is awaited from this socket address, yet it was treated like
+                                // an address that is exempt (the handshake kind alone is no excuse:
+                                // C18 covers that)
+                                if related && (at_ip_stage || matches!(pk, PK::Message(_))) {
+                                    fl.add(
+                                        &["C13"],
+                                        "a datagram from a socket address nothing is awaited from bypassed the filter while something was awaited from another address of that host",
+                                        detail.clone(),
+                                        i,
+                                    );
+                                }
+                            } else if ip_ban_due && at_ip_stage {
+                                match after.ban_ips.get(&ip) {
+                                    Some(t) if within(t) => {}
+                                    x => fl.add(&["C18"], "sender over its per-IP quota is not banned for the configured duration", format!("{}: ban entry {:?}, call in [{}, {}] ns", detail, x.map(|t| t.map(ns)), lo, hi), i),
+                                }
+                            } else if node_ban_due && !at_ip_stage {
+                                match node.as_ref().and_then(|n| after.ban_nodes.get(n)) {
+                                    Some(t) if within(t) => {}
+                                    x => fl.add(&["C18"], "sender over its per-node quota is not banned for the configured duration", format!("{}: ban entry {:?}", detail, x.map(|t| t.map(ns))), i),
+                                }
+                            }
+                        }
+                        (Exp::Pass, Exp::Pass) => {
+                            let ip_listed = before.permit_ips.contains(&ip);
+                            let node_listed = node.as_ref().map(|n| before.permit_nodes.contains(n)).unwrap_or(true);
+                            if ip_listed && node_listed {
+                                saw_permit = true;
+                                hist.add("inbound:permit-listed");
+                            }
+                            // the nodes-per-IP rule (not a quota of the property) may still ban the IP (a
+                            // permit-listed IP that is banned as well gets here, and is banned again)
+                            let nodes_per_ip_rule = node.is_some() && !node_listed && g.enabled && g.max_nodes_per_ip.is_some() && after.ban_ips.contains_key(&ip);
+                            if dropped && nodes_per_ip_rule {
+                                hist.add("inbound:nodes-per-IP rule");
+                            } else if dropped {
+                                failed = true;
+                                let text = match (ip_listed, node.is_some(), node_listed) {
+                                    (true, true, true) => "datagram from a permit-listed IP and node id was dropped",
+                                    (true, false, _) => "datagram from a permit-listed IP was dropped at the IP stage",
+                                    _ => "datagram within every applicable quota was refused",
+                                };
+                                fl.add(&["C18"], text, detail.clone(), i);
+                                if well_formed {
+                                    fl.add(
+                                        &["C05"],
+                                        "a well-formed packet addressed to this node, from a source that is neither banned nor over a quota, was not delivered to the handler",
+                                        detail.clone(),
+                                        i,
+                                    );
+                                }
+                            } else {
+                                hist.add("inbound:within every quota");
+                                if is_local {
+                                    hist.add("recv:packet with the local id as source id passed");
+                                }
+                                if short_body {
+                                    hist.add("recv:packet with a body shorter than 16 bytes passed");
+                                }
+                            }
+                        }
+                        _ => hist.add("inbound:no statement (bookkeeping lost after a failure)"),
+                    }
+                }
+                // decoding: a well-formed datagram of legal size is a packet, other bytes are not
+                if !dropped {
+                    if well_formed && fate != 3 {
+                        failed = true;
+                        fl.add(&["C05"], "a well-formed datagram addressed to this node was not decoded (reported as an unrecognized frame)", detail.clone(), i);
+                        if full_size {
+                            // requests up to the datagram limit are served (C14 quantifies over request
+                            // sizes up to the limit): this one never reaches the handler
+                            fl.add(&["C14"], "a message packet in a datagram of legal size (at most 1280 bytes) was not decoded: a request of that size is never answered", detail.clone(), i);
+                        }
+                    }
+                    if !well_formed && fate == 3 {
+                        failed = true;
+                        fl.add(&["C05"], "an undecodable datagram was delivered as a packet", detail.clone(), i);
+                    }
+                }
+                if failed {
+                    lost = true;
                 }
                 if dropped {
                     saw_limit_drop = true;
@@ -936,7 +1460,7 @@ fn run_fil(id: u64, g: &FilCase, api: &Discv5, inb: bool, rt: &tokio::runtime::R
                         Some(t) => ns(*t) > hi,
                     };
                     if keep && !after.ban_ips.contains_key(ip) {
-                        fail(&mut failures, "ban was lifted before its expiry", format!("ip {:?} until {:?}, check not after {}", ip, t.map(ns), hi), i);
+                        fl.add(&["C18"], "ban was lifted before its expiry", format!("ip {:?} until {:?}, check not after {}", ip, t.map(ns), hi), i);
                     }
                 }
                 for (n, t) in &before.ban_nodes {
@@ -945,7 +1469,7 @@ fn run_fil(id: u64, g: &FilCase, api: &Discv5, inb: bool, rt: &tokio::runtime::R
                         Some(t) => ns(*t) > hi,
                     };
                     if keep && !after.ban_nodes.contains_key(n) {
-                        fail(&mut failures, "ban was lifted before its expiry", format!("node {} until {:?}", node_num(n), t.map(ns)), i);
+                        fl.add(&["C18"], "ban was lifted before its expiry", format!("node {} until {:?}", node_num(n), t.map(ns)), i);
                     }
                 }
                 let lifted = before.ban_ips.len() + before.ban_nodes.len() - after.ban_ips.len() - after.ban_nodes.len();
@@ -976,7 +1500,7 @@ fn run_fil(id: u64, g: &FilCase, api: &Discv5, inb: bool, rt: &tokio::runtime::R
     };
     let coq = format!(
         "{} ({}, {}, {}, {}, {}, {},\n [{}])",
-        if inb { "CInb" } else { "CFil" },
+        if inb { "CRcv" } else { "CFil" },
         id,
         coq_bool(g.enabled),
         rate,
@@ -985,9 +1509,13 @@ fn run_fil(id: u64, g: &FilCase, api: &Discv5, inb: bool, rt: &tokio::runtime::R
         coq_on(g.max_bans_per_ip.map(|x| x as u64)),
         steps.join(";\n  ")
     );
+    if let Some(vh) = recv.as_mut() {
+        vh.shutdown();
+        rt.block_on(async { tokio::task::yield_now().await });
+    }
     CaseResult {
         coq,
-        failures,
+        failures: fl.list,
         nontrivial: saw_pass && (saw_limit_drop || saw_ban_drop) && (saw_permit || saw_ban_drop),
         canon: h,
         steps: steps.len(),
@@ -1019,6 +1547,8 @@ pub fn main(args: &[String]) {
     let o = parse_opts(args);
     let mut only: Option<u64> = None;
     let mut part = "lim".to_string();
+    // property in focus: only its monitor failures are reported (the others are counted)
+    let mut focus: Option<String> = None;
     let mut i = 0;
     while i < o.rest.len() {
         match o.rest[i].as_str() {
@@ -1030,11 +1560,15 @@ pub fn main(args: &[String]) {
                 part = o.rest[i + 1].clone();
                 i += 1;
             }
+            "--focus" => {
+                focus = Some(o.rest[i + 1].to_uppercase());
+                i += 1;
+            }
             _ => {}
         }
         i += 1;
     }
-    let mut sum = Summary::new(&format!("limiter/{}", part));
+    let mut sum = Summary::new(&format!("limiter/{}{}", part, focus.as_ref().map(|f| format!("/{}", f)).unwrap_or_default()));
     let per_file = if part == "lim" { 16 } else { 8 };
     let mut w = CaseWriter::new(&o.out, &format!("c18_{}_cases", part), HEADER, "c18case", "check_all", per_file);
     let range: Vec<u64> = match only {
@@ -1067,9 +1601,9 @@ pub fn main(args: &[String]) {
                 ops,
             )
         } else {
-            let g = gen_fil(&mut rng, o.thorough, part == "inb");
+            let g = gen_fil(&mut rng, o.thorough, part == "inb", idx);
             let r = run_fil(idx, &g, api.as_ref().unwrap(), part == "inb", &rt);
-            let ops: Vec<J> = g.events.iter().map(|e| J::s(coq_fev(e))).collect();
+            let ops: Vec<J> = g.events.iter().map(|e| J::s(replay_fev(e))).collect();
             (
                 r,
                 J::obj(vec![
@@ -1096,14 +1630,20 @@ pub fn main(args: &[String]) {
         if sum.samples.len() < 2 {
             sum.samples.push(sample.clone());
         }
-        for (sigtext, detail, step) in &r.failures {
-            let sig = format!("C18:{}", sigtext);
+        for (prop, sigtext, detail, step) in &r.failures {
+            if let Some(f) = &focus {
+                if f != prop {
+                    sum.hist.add(&format!("monitor_failure_of_another_property_{}", prop));
+                    continue;
+                }
+            }
+            let sig = format!("{}:{}", prop, sigtext);
             if seen_sig.insert(sig.clone()) || only.is_some() {
-                let file = o.out.join(format!("failure_C18_{}_{}_{}.json", part, idx, seen_sig.len()));
+                let file = o.out.join(format!("failure_{}_{}_{}_{}.json", prop, part, idx, seen_sig.len()));
                 let mut kv = vec![
                     ("component", J::s("limiter")),
                     ("part", J::s(part.clone())),
-                    ("property", J::s("C18")),
+                    ("property", J::s(prop.clone())),
                     ("seed", J::I(o.seed as i64)),
                     ("case", J::I(idx as i64)),
                     ("thorough", J::B(o.thorough)),
@@ -1125,7 +1665,7 @@ pub fn main(args: &[String]) {
     sum.rule = if part == "lim" {
         "event sequences over a real Limiter<u64> with explicit time: bursts 1-12, periods divisible / not divisible by the burst (large, round and small), arrival gaps around 0, t, tau and multiples, 3 keys, interleaved prunes, occasionally batches of several tokens; plus edge cases (invalid quotas, t = 0, times near 2^64, clock going back, huge batches); a case is non-trivial if the limiter both accepted and refused, distinct if its verdict/prune trace is new in this run".into()
     } else if part == "inb" {
-        "histories over a real RecvHandler (handle_inbound: exemption lookup, initial pass, Packet::decode, final pass) + the global PERMIT_BAN_LIST in real time (serial): datagrams built with Packet::encode (message from one of 6 node ids / WHOAREYOU / undecodable) from 4 IPs, 1 in 8 from an exempt (expected-response) source, same quota regimes and list operations as the filter part, unban_nodes_check through a starting real Handler; non-trivial if some datagram was delivered, some dropped, and a permit/ban/exemption decided a call; distinct by fate trace".into()
+        "histories over a real RecvHandler (handle_inbound: source normalisation, exemption lookup, initial pass, Packet::decode, Packet::src_id, final pass) in front of a real Handler (hook VirtualHandler) + the global PERMIT_BAN_LIST in real time (serial): datagrams built with Packet::encode - message / handshake packets from one of 6 node ids or the local node's own id with bodies of 0..40 bytes (0, 1, 15, 16, 17, 24, 40 emphasised; 1 message packet in 10 fills the datagram to 1279 or 1280 bytes), WHOAREYOU, undecodable bytes of 0..1400 bytes - from 4 hosts in four address forms (IPv4, IPv6, IPv4-mapped IPv6, link-local IPv6), two ports, IPv6 sources with flowinfo and/or scope id set; every case opens with one of eight corner datagrams in turn (1280-byte message packet, local id as source id, empty body, IPv4-mapped source, scope id only, flowinfo only) through the fresh filter; expected_responses holds per datagram any of: the source itself (1 in 8), another port of its IP, its IPv4 / IPv4-mapped twin, the address with its scope id, another IP; same quota regimes and list operations (also on the IPv6 forms) as the filter part, unban_nodes_check through a starting real Handler; observed: dropped / unrecognized / delivered and the source address the handler reports (WHOAREYOU query for a message packet, unrecognized-frame report); non-trivial if some datagram was delivered, some dropped, and a permit/ban/exemption decided a call; distinct by fate trace".into()
     } else {
         "histories over a real Filter + the global PERMIT_BAN_LIST in real time (serial): total/node/ip quotas each absent, not refilling within the case (period >= 60 s, burst 1-14) or refilled before every call (period 200 us, 2 ms between calls), 4 IPs x 6 node ids, ban duration 1 h / 30 s / permanent, nodes-per-IP and bans-per-IP rules on/off, interleaved prune_limiter, Discv5::ban_*/permit_* calls (bans of 1 h / permanent / 0.5 ms) and unban_nodes_check through a starting real Handler; non-trivial if some datagram passed, some was dropped by a quota or a ban, and a permit or ban entry decided a call; distinct by decision trace".into()
     };
